@@ -80,8 +80,10 @@ def seq_rev(ex, seq):
     es = smt.seq_elem(seq.sort)
     name = {'Cell': 'rev_cells', 'Int': 'rev_ints', 'String': 'rev_strs'}.get(es)
     if name is None:
-        name = 'rev_' + ptypes.mangle(es)
-        if name not in ex.reg.specs:
+        for nm, sf in ex.reg.specs.items():
+            if nm.startswith('rev_') and len(sf.params) == 1 and sort_of(sf.params[0][1]) == seq.sort:
+                name = nm
+        if name is None:
             raise OutOfSubset('reverse of a sequence of %s' % es)
     sf = ex.reg.specs[name]
     ensure_def(ex, sf)
@@ -101,6 +103,9 @@ def sorted_model(ex, args, kwargs, st, n):
     if v.pt.kind == 'list':
         ept = v.pt.args[0]
         if ept.kind == 'tuple' and key is not None:
+            lam = key.py[1] if key.pt.kind == 'func' and key.py[0] == 'lambda' else None
+            if lam is None or ast.unparse(lam).replace(' ', '') != 'lambdax:x[0]':
+                raise OutOfSubset('sorted(): only key=lambda x: x[0] is modelled (line %d)' % n.lineno)
             tgt = 'builtins.sorted.entries'
             a = [v] + ([rev] if rev is not None else [SV(ptypes.TBool, smt.FALSE)])
             return call_external(ex, tgt, a, {}, st, n)
